@@ -94,6 +94,34 @@ pub fn structured_cases(rng: &mut ChaCha8Rng, count: usize) -> Vec<Value> {
     out
 }
 
+/// Sparse graphs with 70-130 nodes (size thresholds such as 64, 100 or 128 in batching / parallel fast paths):
+/// a 10 x 7 grid, a cycle of 100 nodes with a few chords, a 13 x 10 grid with diagonals in one corner.
+pub fn large_cases(rng: &mut ChaCha8Rng) -> Vec<Value> {
+    let mut out = vec![];
+    for directed in [false, true] {
+        let specs = SpecsJ { directed, multi: false, loops: false, dedupe: 2, missing: 0, loopfalse: 1 };
+        let mut shapes: Vec<(i32, Vec<(i32, i32)>)> = vec![];
+        let mut es = vec![];
+        for r in 0..7 { for c in 0..10 { let id = r * 10 + c + 1; if c < 9 { es.push((id, id + 1)); } if r < 6 { es.push((id, id + 10)); } } }
+        shapes.push((70, es));
+        let mut es = vec![];
+        for a in 1..=100 { es.push((a, a % 100 + 1)); }
+        for (a, b) in [(1, 40), (10, 77), (25, 60), (3, 5), (50, 52)] { es.push((a, b)); }
+        shapes.push((100, es));
+        let mut es = vec![];
+        for r in 0..10 { for c in 0..13 { let id = r * 13 + c + 1; if c < 12 { es.push((id, id + 1)); } if r < 9 { es.push((id, id + 13)); } if r < 3 && c < 3 { es.push((id, id + 14)); } } }
+        shapes.push((130, es));
+        for (n, es) in shapes {
+            let mut names: Vec<i32> = (1..=n).collect();
+            names.shuffle(rng);
+            let mut ea: Vec<EdgeArg> = es.into_iter().map(|(u, v)| if !directed && rng.gen_bool(0.5) { (v, u, NAN_W, 0) } else { (u, v, NAN_W, 0) }).collect();
+            ea.shuffle(rng);
+            out.push(case_json(specs, &[Op::AddNodes(names.into_iter().map(|x| (x, 0)).collect()), Op::AddEdges(ea)], "large"));
+        }
+    }
+    out
+}
+
 /// Graphs with astronomically many shortest paths: a chain of k diamonds has 2^k shortest paths end to end,
 /// a stack of layers of width 3 (each layer fully joined to the next) 3^(layers - 2), a square grid binomially many.
 pub fn bigcount_cases() -> Vec<Value> {
